@@ -187,9 +187,10 @@ def probabilistic (p t : Tm) : R Tm := do
     | .none => throw (.crash "AttributeError")            -- `operand2.is_negated()` on None
     | .not _ c => renameNeg c                              -- neg_head_literal_to_pos_literal(abs(literal))
     | t => pure t)
-  match t with
-  | .term f as o _ => pure (.term f as o (some p))
-  | _ => throw (.unsupported "probability on a non-Term object")
+  match t, p with
+  | .term f as o _, .none => pure (.term f as o none)       -- `probability = None` is "no probability"
+  | .term f as o _, p => pure (.term f as o (some p))
+  | _, _ => throw (.unsupported "probability on a non-Term object")
 
 def isExactTerm : Tm → Bool
   | .term _ _ _ _ => true
@@ -246,14 +247,14 @@ end Factory
 
 /-- `while current.functor == ";": heads.append(current.args[0]); current = current.args[1]`. -/
 def uncurryOr : Tm → R (List Tm)
-  | .none => throw (.internal "AttributeError")             -- `current.functor` on None
+  | .none => throw (.internal "AttributeError:_build_clause") -- `current.functor` on None
   | .or a b => (a :: ·) <$> uncurryOr b
   | .term ";" (a :: b :: _) _ _ => (a :: ·) <$> uncurryOr b
-  | .term ";" _ _ _ => throw (.internal "IndexError")
+  | .term ";" _ _ _ => throw (.internal "IndexError:_build_clause")
   | .agg ";" (a :: b :: _) => (a :: ·) <$> uncurryOr b
-  | .agg ";" _ => throw (.internal "IndexError")
-  | .not ";" _ => throw (.internal "IndexError")
-  | .var ";" => throw (.internal "IndexError")
+  | .agg ";" _ => throw (.internal "IndexError:_build_clause")
+  | .not ";" _ => throw (.internal "IndexError:_build_clause")
+  | .var ";" => throw (.internal "IndexError:_build_clause")
   | t => pure [t]
 
 def buildClause (a b : Tm) : R Tm := do
@@ -306,7 +307,7 @@ def labelStep (p : Option Item) (t : Item) (n : Option Item) : R (Option Item ×
   -- :1187-1190
   let t ← (if t.unop.isSome && t.atom then
       match n with
-      | none => throw (Err.internal "IndexError")                              -- tokens[i + 1]
+      | none => throw (Err.internal "IndexError:label_tokens")                 -- tokens[i + 1]
       | some nx => pure (if nx.binop.isNone then t.setAtom false else t)
     else pure t : R Item)
   -- :1192-1193
@@ -338,7 +339,7 @@ def buildOpFree (items : List Item) : R Tm :=
     match s.value with
     | .many l => match conjoin l with
       | some v => pure v
-      | none => throw (.internal "IndexError")                                -- token.tokens[-1] of an empty list
+      | none => throw (.internal "IndexError:_build_operator_free")            -- token.tokens[-1] of an empty list
     | .one v => pure v
   | [.tok t _] =>
     match t.special with
@@ -350,10 +351,10 @@ def buildOpFree (items : List Item) : R Tm :=
     | _ => if t.aggregate then pure (.agg t.str []) else pure (Factory.function t.str [])
   | [f, a] =>
     match a with
-    | .tok _ _ => throw (.internal "AttributeError")                          -- Token has no enum_tokens
+    | .tok _ _ => throw (.internal "AttributeError:_build_operator_free")     -- Token has no enum_tokens
     | .sub s =>
       match s.enum with
-      | none => throw (.internal "TypeError")                                 -- iterating a non-list
+      | none => throw (.internal "TypeError:_build_operator_free")             -- iterating a non-list
       | some args =>
         match f with
         | .tok t _ => if t.aggregate then pure (.agg t.str args) else pure (Factory.function t.str args)
@@ -499,11 +500,14 @@ def closeFrame (fr : Frame) (t : Tok) (root : List Item) (stack : List Frame) : 
   | [] => pure (root ++ [.sub sub], [])
   | par :: more => pure (root, par.push (.sub sub) :: more)
 
-/-- an `IndexError` escaping from `current_expr.parse(self)` is caught by `except IndexError` (parser.py:1245). -/
+/-- an `IndexError` escaping from `current_expr.parse(self)` is caught by `except IndexError` (parser.py:1245) and
+    becomes `UnmatchedCharacter`; the tag in the message is for the harness only (Python's message is the same). -/
 def catchIndexError {α} (r : R α) : R α :=
   match r with
-  | .error (.internal "IndexError") => .error (.parse "Unmatched character")
-  | .error (.crash "IndexError") => .error (.parse "Unmatched character")
+  | .error (.internal "IndexError:_build_clause") => .error (.parse "Unmatched character [caught IndexError]")
+  | .error (.internal "IndexError:label_tokens") => .error (.parse "Unmatched character [caught IndexError]")
+  | .error (.internal "IndexError:_build_operator_free") => .error (.parse "Unmatched character [caught IndexError]")
+  | .error (.crash "IndexError") => .error (.parse "Unmatched character [caught IndexError]")
   | r => r
 
 /-- The loop over the raw tokens; `stack` has the innermost open expression first. The previous raw token (for
@@ -530,7 +534,7 @@ def collapseStep (t : Tok) (rest : List Tok) (root : List Item) (stack : List Fr
       | [] => pure (root ++ [.tok t false], [])
   if t.special == some .sharpOpen then
     match rest with
-    | [] => throw (.internal "IndexError")                                     -- tokens[token_i + 1]
+    | [] => throw (.internal "IndexError:collapse")                            -- tokens[token_i + 1]
     | v :: rest' =>
       if v.special == some .variable && (match rest' with | c :: _ => c.special == some .sharpClose | [] => false) then
         let fr : Frame := { kind := .sharp, toks := [], maxIdx := none, maxPrio := 0 }
